@@ -1,3 +1,4 @@
+import TmcgProps.C03Rabin
 import TmcgProps.C03Args
 import TmcgProps.C03CutChoose
 import TmcgProofs.SigmaComplete
